@@ -33,6 +33,8 @@ func runC04(c *Ctx) {
 	checkComparator(c, "R1.1") // "same order" on every read: the pack order must be a total function of stored data
 	checkOpsConcatenation(c)
 	checkFirstVersionFrozen(c)
+	checkPayloadNotAliased(c)
+	checkStateOnlyOnSuccess(c, "R4.11")
 	// "logical times … read through the cache and a second replica after push/pull": what is read is
 	// witnessed (so the next commit sorts after it) and what is pulled is what the cache serves
 	checkWitnessAll(c, "R5.3")
@@ -1185,4 +1187,192 @@ func checkFirstVersionFrozen(c *Ctx) {
 		}
 		c.Check(cached, "R4.9", "version.Id:predicted-id-recorded", w.FnPos(vid), "the predicted id is recorded in the version", "version.Id() does not record the id it predicts: SetMetadata cannot know the id was handed out")
 	}
+}
+
+// R4.10: the payload of an operation is never shared with state that is modified in place. An
+// operation's id is the hash of its serialised payload and is cached after the first computation;
+// if a snapshot's slice that is appended to / sorted in place aliases the slice of an operation,
+// a later operation's Apply rewrites the earlier one's payload after its id was handed out.
+func checkPayloadNotAliased(c *Ctx) {
+	w := c.W
+	c.Doc("R4.10", "in the Apply methods of package entities/bug, a Snapshot field of slice type that is modified in place somewhere in the package (sorted, stored through an index, appended to itself) is never assigned an operation's own slice field: only fresh slices or appends")
+	sp := w.SSAPkg("entities/bug")
+	if sp == nil {
+		c.Undecided("R4.10", "anchor:entities/bug", "entities/bug", "package not found")
+		return
+	}
+	isSnapField := func(v ssa.Value) (string, bool) {
+		fa, ok := v.(*ssa.FieldAddr)
+		if !ok {
+			return "", false
+		}
+		if typeShortName(fa.X.Type()) != "entities/bug.Snapshot" {
+			return "", false
+		}
+		return fieldName(fa), true
+	}
+	var fns []*ssa.Function
+	for _, f := range w.ModFns {
+		if fnPkgPath(f) == modPath+"/entities/bug" && !isInstance(f) && !w.isTestHelper(f) {
+			fns = append(fns, f)
+		}
+	}
+	// fields modified in place
+	inPlace := map[string]string{}
+	for _, f := range fns {
+		for _, b := range f.Blocks {
+			for _, ins := range b.Instrs {
+				switch x := ins.(type) {
+				case *ssa.Call:
+					n, _ := callName(x.Common())
+					if strings.HasPrefix(n, "sort.") || strings.HasPrefix(n, "slices.Sort") {
+						for _, a := range x.Common().Args {
+							for _, fld := range originFields(a) {
+								inPlace[fld] = n + " in " + funcName(f)
+							}
+						}
+					}
+					if bi, ok := x.Common().Value.(*ssa.Builtin); ok && bi.Name() == "append" {
+						for _, fld := range originFields(x.Common().Args[0]) {
+							inPlace[fld] = "append in " + funcName(f)
+						}
+					}
+				case *ssa.Store:
+					if ia, ok := x.Addr.(*ssa.IndexAddr); ok {
+						for _, fld := range originFields(ia.X) {
+							inPlace[fld] = "indexed store in " + funcName(f)
+						}
+					}
+				}
+			}
+		}
+	}
+	n := 0
+	done := map[string]bool{}
+	for _, f := range fns {
+		if f.Name() != "Apply" || f.Signature.Recv() == nil {
+			continue
+		}
+		c.seeFn(funcName(f))
+		recv := f.Params[0]
+		for _, b := range f.Blocks {
+			for _, ins := range b.Instrs {
+				st, ok := ins.(*ssa.Store)
+				if !ok {
+					continue
+				}
+				fld, isSnap := isSnapField(st.Addr)
+				if !isSnap {
+					continue
+				}
+				if _, isSlice := st.Val.Type().Underlying().(*types.Slice); !isSlice {
+					continue
+				}
+				n++
+				c.Sites++
+				how, mutated := inPlace[fld]
+				aliases := ""
+				for _, o := range origins(st.Val) {
+					if o.Kind == "field" {
+						// a field of the operation (the receiver), taken as a whole slice
+						for _, o2 := range origins(o.Val) {
+							if o2.Kind == "param" && o2.Val == ssa.Value(recv) {
+								aliases = o.Name
+							}
+						}
+						if o.Val == ssa.Value(recv) {
+							aliases = o.Name
+						}
+					}
+				}
+				key := fmt.Sprintf("%s:Snapshot.%s", strings.TrimPrefix(funcName(f), "entities/bug."), fld)
+				if done[key] {
+					if !(aliases != "" && mutated) {
+						continue
+					}
+					key += ":aliased"
+				}
+				done[key] = true
+				if aliases != "" && mutated {
+					c.Violate("R4.10", key, w.InstrPos(st), fmt.Sprintf("Snapshot.%s is assigned the operation's own slice .%s, and Snapshot.%s is modified in place (%s): a later operation rewrites this operation's payload after its id was computed — what is committed differs from what was accepted, and the id no longer is the hash of the stored form", fld, aliases, fld, how))
+				} else {
+					c.Hold("R4.10", key, w.InstrPos(st), "a fresh slice / an append")
+				}
+			}
+		}
+	}
+	c.Check(n >= 4 && len(inPlace) >= 1, "R4.10", "expected:snapshot-slice-stores", "entities/bug", fmt.Sprintf("%d stores of slices into Snapshot fields examined; in-place modified fields: %d", n, len(inPlace)), fmt.Sprintf("only %d slice stores into Snapshot fields / %d in-place modified fields found", n, len(inPlace)))
+}
+
+// R4.11: an object's state takes the result of a fallible call only when the call succeeded. A field of
+// the receiver assigned straight from `x, err = f()` holds f's zero value after a failure: Entity.Commit
+// that forgets its last commit this way writes a parent-less commit at the next attempt and moves the ref
+// onto it — the earlier history becomes unreachable and the entity gets another id.
+func checkStateOnlyOnSuccess(c *Ctx, rule string) {
+	w := c.W
+	c.Doc(rule, "in packages entity/dag, entities/identity, entities/bug and cache: a store into a field reachable from the method's receiver whose value is a hash or an id returned by a call that also returns an error is dominated by the success edge of that call")
+	n := 0
+	for _, f := range w.ModFns {
+		p := fnPkgPath(f)
+		if isInstance(f) || w.isTestHelper(f) || len(f.Blocks) == 0 {
+			continue
+		}
+		if p != modPath+"/entity/dag" && p != modPath+"/entities/identity" && p != modPath+"/entities/bug" && p != modPath+"/cache" {
+			continue
+		}
+		if f.Signature.Recv() == nil || len(f.Params) == 0 {
+			continue
+		}
+		recv := f.Params[0]
+		for _, b := range f.Blocks {
+			for _, ins := range b.Instrs {
+				st, ok := ins.(*ssa.Store)
+				if !ok {
+					continue
+				}
+				fa, ok := st.Addr.(*ssa.FieldAddr)
+				if !ok {
+					continue
+				}
+				// the struct written is the receiver (or reached from it)
+				fromRecv := fa.X == ssa.Value(recv)
+				if !fromRecv {
+					for _, o := range origins(fa.X) {
+						if o.Kind == "param" && o.Val == ssa.Value(recv) {
+							fromRecv = true
+						}
+						if o.Kind == "field" {
+							for _, o2 := range origins(o.Val) {
+								if o2.Kind == "param" && o2.Val == ssa.Value(recv) {
+									fromRecv = true
+								}
+							}
+						}
+					}
+				}
+				if !fromRecv {
+					continue
+				}
+				ex, ok := st.Val.(*ssa.Extract)
+				if !ok {
+					continue
+				}
+				cv, ok := ex.Tuple.(*ssa.Call)
+				if !ok || !errResultOfCall(cv) || isErrorType(ex.Type()) {
+					continue
+				}
+				// state that names git objects (commit / tree / blob hashes) or entities: its zero value is not "nothing happened" but "no parent"
+				if tn := typeShortName(ex.Type()); tn != "repository.Hash" && tn != "entity.Id" {
+					continue
+				}
+				n++
+				c.Sites++
+				c.seeFn(funcName(f))
+				nm, _ := callName(cv.Common())
+				c.Check(dominatedBySuccess(cv, st), rule, funcName(f)+":"+fieldName(fa)+"←"+nm, w.InstrPos(st), "assigned on the success edge of the call",
+					"the field ."+fieldName(fa)+" is assigned the result of "+nm+" before its error is tested: after a failure the object holds the zero value (for Entity.lastCommit: the next commit is written without parent and the ref moved onto it)")
+			}
+		}
+	}
+	c.Check(n >= 1, rule, "expected:state-from-fallible-calls", "module", fmt.Sprintf("%d field stores fed by a fallible call", n), "no field store fed by a fallible call found")
 }
